@@ -87,6 +87,13 @@ fn main() {
 '''
 
 
+
+def _lockfile():
+    """Cargo.lock of the repository under check; it is an ignored file, so a `git worktree` snapshot of /repo has none: fall back to /repo's."""
+    p = os.path.join(os.environ.get("VERIF_REPO", "/repo"), "Cargo.lock")
+    return p if os.path.exists(p) else "/repo/Cargo.lock"
+
+
 def kani_version():
     try:
         out = subprocess.run(["cargo", "kani", "--version"], capture_output=True, text=True, env=ENV, timeout=60)
@@ -142,8 +149,8 @@ class Crate:
                     '[dependencies]\n%s\n[profile.dev]\ndebug = false\noverflow-checks = true\n\n[profile.release]\noverflow-checks = false\n\n'
                     '[lints.rust]\nunexpected_cfgs = { level = "allow" }\n'
                     % (self.name, deps))
-        shutil.copy(os.path.join(REPO, "Cargo.lock"), os.path.join(self.dir, "native", "Cargo.lock"))
-        shutil.copy(os.path.join(REPO, "Cargo.lock"), os.path.join(self.dir, "Cargo.lock"))
+        shutil.copy(_lockfile(), os.path.join(self.dir, "native", "Cargo.lock"))
+        shutil.copy(_lockfile(), os.path.join(self.dir, "Cargo.lock"))
         feats = "".join("#![cfg_attr(kani, feature(%s))]\n" % f for f in self.nightly_features)
         dispatch = "pub fn replay_dispatch(name: &str) -> bool {\n    match name {\n" + "".join(
             '        "%s" => { %s(); true }\n' % (h, h) for h in self.harnesses) + "        _ => false,\n    }\n}\n"
@@ -300,7 +307,7 @@ class NativeCrate:
         with open(os.path.join(self.dir, "Cargo.toml"), "w") as f:
             f.write('[package]\nname = "%s"\nversion = "0.1.0"\nedition = "2018"\n\n[workspace]\n\n[dependencies]\n%s\n'
                     '[profile.dev]\ndebug = false\n' % (name, "".join("%s = %s\n" % kv for kv in (deps or {}).items())))
-        shutil.copy(os.path.join(REPO, "Cargo.lock"), os.path.join(self.dir, "Cargo.lock"))
+        shutil.copy(_lockfile(), os.path.join(self.dir, "Cargo.lock"))
         with open(os.path.join(self.dir, "src", "main.rs"), "w") as f:
             f.write("#![allow(warnings)]\n" + main_rs)
         self.exe = None
